@@ -421,22 +421,81 @@ class Builtins(BuiltinCalls, ContainerCalls):
     # ==================================================================================
     # facts derived from refinements (stdlib monotonicity axioms)
     # ==================================================================================
-    def derive_facts(self, sym, rng: Interval, state: State) -> None:
-        # cdf(y) < k <= 1/2  ==>  y < 0 ;  cdf(y) > k >= 1/2 ==> y > 0
-        if sym[0] == "call" and sym[1] in ("NormalDist.cdf",) and len(sym) >= 3:
-            y = sym[2]
-            if y is None:
+    def derive_facts(self, sym, rng: Interval, state: State, depth: int = 0) -> None:
+        """Backward propagation of a refined range through monotone structure (stdlib monotonicity axioms):
+        knowing S in rng, derive ranges of sub-terms of S and record them as facts."""
+        if sym is None or depth > 12 or not isinstance(sym, tuple):
+            return
+
+        def learn(term, iv: Interval):
+            if term is None or not isinstance(term, tuple) or term[0] == "const":
                 return
-            if rng.hi < 0.5 or (rng.hi == 0.5 and rng.hi_open):
-                self.I.axiom("NormalDist.cdf is non-decreasing with cdf(0) = 1/2: cdf(y) < 1/2 implies y < 0")
-                old = state.facts.get(y)
-                f = Interval(-INF, 0.0, True, True)
-                state.facts[y] = f if old is None else old.meet(f)
-            if rng.lo > 0.5 or (rng.lo == 0.5 and rng.lo_open):
-                self.I.axiom("NormalDist.cdf is non-decreasing with cdf(0) = 1/2: cdf(y) > 1/2 implies y > 0")
-                old = state.facts.get(y)
-                f = Interval(0.0, INF, True, True)
-                state.facts[y] = f if old is None else old.meet(f)
+            old = state.facts.get(term)
+            new = iv if old is None else old.meet(iv)
+            if old != new:
+                state.facts[term] = new
+            self.derive_facts(term, new, state, depth + 1)
+
+        k = sym[0]
+        if k == "call" and len(sym) == 3:
+            name, y = sym[1], sym[2]
+            if name in ("NormalDist.cdf", "fn:phi_major"):
+                # non-decreasing, cdf(0) = 1/2
+                if rng.hi < 0.5 or (rng.hi == 0.5 and rng.hi_open):
+                    self.I.axiom("the normal CDF is non-decreasing with cdf(0) = 1/2: cdf(y) < 1/2 implies y < 0")
+                    learn(y, Interval(-INF, 0.0, True, True))
+                if rng.lo > 0.5 or (rng.lo == 0.5 and rng.lo_open):
+                    self.I.axiom("the normal CDF is non-decreasing with cdf(0) = 1/2: cdf(y) > 1/2 implies y > 0")
+                    learn(y, Interval(0.0, INF, True, True))
+            elif name == "math.erfc":
+                # decreasing, erfc(0) = 1
+                if rng.hi < 1.0 or (rng.hi == 1.0 and rng.hi_open):
+                    self.I.axiom("math.erfc is decreasing with erfc(0) = 1: erfc(y) < 1 implies y > 0")
+                    learn(y, Interval(0.0, INF, True, True))
+                if rng.lo > 1.0 or (rng.lo == 1.0 and rng.lo_open):
+                    self.I.axiom("math.erfc is decreasing with erfc(0) = 1: erfc(y) > 1 implies y < 0")
+                    learn(y, Interval(-INF, 0.0, True, True))
+            elif name in ("math.erf", "math.tanh"):
+                if rng.hi < 0 or (rng.hi == 0 and rng.hi_open):
+                    learn(y, Interval(-INF, 0.0, True, True))
+                if rng.lo > 0 or (rng.lo == 0 and rng.lo_open):
+                    learn(y, Interval(0.0, INF, True, True))
+            elif name in ("math.exp",):
+                if rng.hi < 1 or (rng.hi == 1 and rng.hi_open):
+                    learn(y, Interval(-INF, 0.0, True, True))
+                if rng.lo > 1 or (rng.lo == 1 and rng.lo_open):
+                    learn(y, Interval(0.0, INF, True, True))
+            elif name in ("float",):
+                learn(y, rng)
+            return
+        if k == "neg":
+            learn(sym[1], rng.neg())
+            return
+        if k in ("mul", "div") and len(sym) == 3:
+            a, b = sym[1], sym[2]
+            ca = a[1] if a is not None and a[0] == "const" and isinstance(a[1], (int, float)) and not isinstance(a[1], bool) else None
+            cb = b[1] if b is not None and b[0] == "const" and isinstance(b[1], (int, float)) and not isinstance(b[1], bool) else None
+            if k == "mul" and ca not in (None, 0):
+                r = rng.mul(Interval.point(1.0 / ca))
+                learn(b, r)
+            elif k == "mul" and cb not in (None, 0):
+                learn(a, rng.mul(Interval.point(1.0 / cb)))
+            elif k == "div" and cb not in (None, 0):
+                learn(a, rng.mul(Interval.point(float(cb))))
+            elif k == "div" and b is not None and b[0] == "call" and b[1] == "math.sqrt" and b[2] is not None and b[2][0] == "const" and isinstance(b[2][1], (int, float)) and b[2][1] > 0:
+                import math as _m
+
+                learn(a, rng.mul(Interval.point(_m.sqrt(b[2][1]))))
+            return
+        if k in ("add", "sub") and len(sym) == 3:
+            a, b = sym[1], sym[2]
+            if b is not None and b[0] == "const" and isinstance(b[1], (int, float)) and not isinstance(b[1], bool):
+                c = Interval.point(float(b[1]))
+                learn(a, rng.sub(c) if k == "add" else rng.add(c))
+            elif a is not None and a[0] == "const" and isinstance(a[1], (int, float)) and not isinstance(a[1], bool):
+                c = Interval.point(float(a[1]))
+                learn(b, rng.sub(c) if k == "add" else c.sub(rng))
+            return
 
 
 def _ckey(v):
